@@ -348,12 +348,20 @@ theorem iaddVector_no_oob {cfg : Cfg} {h : Heap} {a b : View} (w : a.WF (shape h
       · simp [herr] at hr; subst hr; decide
 
 
-/-! ## `a[mask] = data`, packed branch: needs the views to be dense (a shifted alias could change the mask under the loop) -/
+/-! ## `a[mask] = data`, packed branch: needs the LAYOUT of the views (a shifted alias could change the mask under the loop) -/
 
 /-- a dense array (`off = 0`, `stride = 1`) or a masked reference of one -/
 structure View.Dense (v : View) : Prop where
   off0 : v.off = 0
   stride1 : v.stride = 1
+
+/-- the view addresses ONE component (`off < stride`) of `stride`-cell elements that lie whole inside its allocation:
+    dense arrays (`stride = 1`), vector arrays (`off = 0`, `stride = w`), their component arrays (`off = k < w`) and masked
+    references of all of these -/
+structure View.Lay (sh : List Nat) (v : View) : Prop where
+  offLt : v.off < v.stride
+  whole : ∃ n, sh[v.buf]? = some n ∧
+    ∀ i, i < (match v.indices with | none => v.length | some _ => v.unmaskedLength) → i * v.stride + v.stride ≤ n
 
 theorem pairwise_lt_ge_index (l : List Nat) (hp : l.Pairwise (· < ·)) : ∀ j (hj : j < l.length), j ≤ l[j] := by
   rw [List.pairwise_iff_getElem] at hp
@@ -366,10 +374,9 @@ theorem pairwise_lt_ge_index (l : List Nat) (hp : l.Pairwise (· < ·)) : ∀ j 
     have h2 := hp j (j + 1) (by omega) hj (by omega)
     omega
 
-theorem Dense.cellPos_ge {sh : List Nat} {m : View} (wm : m.WF sh) (dm : m.Dense) {j : Nat} (hj : j < m.length) :
-    j ≤ m.cellPos j := by
-  unfold View.cellPos View.pos View.rawOf
-  rw [dm.off0, dm.stride1]
+/-- the raw index of virtual element `j` is at least `j` (mask indices are strictly increasing) -/
+theorem View.WF.rawOf_ge {sh : List Nat} {m : View} (wm : m.WF sh) {j : Nat} (hj : j < m.length) : j ≤ m.rawOf j := by
+  unfold View.rawOf
   obtain ⟨n, _, hm⟩ := wm.inBuf
   cases hidx : m.indices with
   | none => simp
@@ -380,6 +387,14 @@ theorem Dense.cellPos_ge {sh : List Nat} {m : View} (wm : m.WF sh) (dm : m.Dense
     have := pairwise_lt_ge_index idx hpw j hjl
     simp only [List.getD_eq_getElem?_getD, List.getElem?_eq_getElem hjl, Option.getD_some]
     omega
+
+/-- two cells `a + x·w`, `b + y·w` with `a, b < w` coincide only for `x = y` (and `a = b`) -/
+theorem cell_eq_imp {a b x y w : Nat} (ha : a < w) (hb : b < w) (h : a + x * w = b + y * w) : x = y := by
+  have h1 : (a + x * w) / w = x := by
+    rw [Nat.add_mul_div_right _ _ (by omega), Nat.div_eq_of_lt ha]; omega
+  have h2 : (b + y * w) / w = y := by
+    rw [Nat.add_mul_div_right _ _ (by omega), Nat.div_eq_of_lt hb]; omega
+  rw [← h1, ← h2, h]
 
 /-- a store changes one cell -/
 theorem cellAt_wr {h h1 : Heap} {b p : Nat} {x : Int} (hw : h.wr b p x = .ok h1) (b' p' : Nat)
@@ -393,7 +408,8 @@ theorem cellAt_wr {h h1 : Heap} {b p : Nat} {x : Int} (hw : h.wr b p x = .ok h1)
   · exact cellAt_other (by simp [Ne.symm hbb]) p'
 
 theorem packLoop_total {v mask data : View} {sh : List Nat} (w : v.WF sh) (wm : mask.WF sh) (wd : data.WF sh)
-    (hun : v.indices = none) (dv : v.Dense) (dm : mask.Dense) (hml : mask.length = v.length) :
+    (hun : v.indices = none) (hvo : v.off < v.stride) (hmo : mask.off < mask.stride)
+    (hst : mask.buf = v.buf → mask.stride = v.stride) (hml : mask.length = v.length) :
     ∀ (n i di : Nat) (h : Heap), shape h = sh → i + n = v.length →
       di + ((List.range' i n).filter (fun j => cellAt h mask.buf (mask.cellPos j) != 0)).length = data.length →
       ∃ h', packLoop v mask data n i di h = .ok h' ∧ shape h' = sh := by
@@ -418,25 +434,34 @@ theorem packLoop_total {v mask data : View} {sh : List Nat} (w : v.WF sh) (wm : 
       rw [hcp, hw1]
       simp only
       apply ih (i + 1) (di + 1) h1 (hs1.trans hsh) (by omega)
-      -- the mask cells still to be read are untouched by the store at cell `i`
+      -- the mask cells still to be read are untouched by the store at element `i`
       have hsame : (List.range' (i + 1) n).filter (fun j => cellAt h1 mask.buf (mask.cellPos j) != 0)
           = (List.range' (i + 1) n).filter (fun j => cellAt h mask.buf (mask.cellPos j) != 0) := by
         apply List.filter_congr
         intro j hj
         have hj' := List.mem_range'_1.1 hj
         have hjm : j < mask.length := by omega
-        have hge := Dense.cellPos_ge wm dm hjm
-        have hvi : v.cellPos i = i := by
-          simp [View.cellPos, View.rawOf, View.pos, hun, dv.off0, dv.stride1]
-        rw [cellAt_wr hw1 mask.buf (mask.cellPos j) (Or.inr (by omega))]
+        have hge := wm.rawOf_ge hjm
+        by_cases hb : mask.buf = v.buf
+        · have hne : mask.cellPos j ≠ v.cellPos i := by
+            intro he
+            have hvi : v.cellPos i = v.off + i * v.stride := by simp [View.cellPos, View.rawOf, View.pos, hun]
+            have hmj : mask.cellPos j = mask.off + mask.rawOf j * v.stride := by
+              simp [View.cellPos, View.pos, hst hb]
+            rw [hvi, hmj] at he
+            have := cell_eq_imp (by rw [← hst hb]; exact hmo) hvo he
+            omega
+          rw [cellAt_wr hw1 mask.buf (mask.cellPos j) (Or.inr hne)]
+        · rw [cellAt_wr hw1 mask.buf (mask.cellPos j) (Or.inl hb)]
       rw [hsame]; omega
     · simp only [hbit, Bool.false_eq_true, if_false] at hcnt ⊢
       exact ih (i + 1) di h hsh (by omega) (by omega)
 
-/-- `a[mask] = b` (both branches) cannot leave the buffers when the target and the mask are dense arrays or masked
-    references of dense arrays — which every object reachable from Python through the 16 statements is -/
+/-- `a[mask] = b` (both branches) cannot leave the buffers when target and mask address components (`off < stride`) of
+    element grids with the SAME stride whenever they share an allocation — which all objects reachable from Python do -/
 theorem setitemVectorMask_no_oob {h : Heap} {v mask data : View} (w : v.WF (shape h)) (wm : mask.WF (shape h))
-    (wd : data.WF (shape h)) (dv : v.Dense) (dm : mask.Dense) {e : Err}
+    (wd : data.WF (shape h)) (hvo : v.off < v.stride) (hmo : mask.off < mask.stride)
+    (hst : mask.buf = v.buf → mask.stride = v.stride) {e : Err}
     (hr : setitemVectorMask h v mask data = .error e) : e ≠ .oob := by
   unfold setitemVectorMask at hr
   split at hr
@@ -486,23 +511,34 @@ theorem setitemVectorMask_no_oob {h : Heap} {v mask data : View} (w : v.WF (shap
               by_cases hh : data.length = ((mask.toList h).filter (· != 0)).length
               · exact hh
               · exact absurd hh hdc
-            obtain ⟨h', hl, _⟩ := packLoop_total w wm wd hun dv dm hml v.length 0 0 h rfl (by omega) (by
+            obtain ⟨h', hl, _⟩ := packLoop_total w wm wd hun hvo hmo hst hml v.length 0 0 h rfl (by omega) (by
               rw [hdc', Nat.zero_add, ← List.range_eq_range', ← hml]
               simp only [View.toList, List.filter_map, List.length_map]
               rfl)
             rw [hl] at hr; simp at hr
 
-
 /-! ## operations that create arrays -/
 
 theorem alloc_Dense (h : Heap) (vals : List Int) : (alloc h vals).2.Dense := ⟨rfl, rfl⟩
 
-/-- what a successful creating operation establishes: a fresh allocation appended, the new view well formed and dense -/
+/-- what a successful creating operation establishes: a fresh allocation appended, the new view on it well formed and laid out -/
 def FreshGood (h : Heap) (r : Heap × View) : Prop :=
-  (∃ vals, r.1 = h ++ [vals]) ∧ r.2.WF (shape r.1) ∧ r.2.Dense
+  (∃ vals, r.1 = h ++ [vals]) ∧ r.2.WF (shape r.1) ∧ r.2.Lay (shape r.1) ∧ r.2.buf = h.length
+
+theorem alloc_Lay (h : Heap) (vals : List Int) : (alloc h vals).2.Lay (shape (alloc h vals).1) := by
+  refine ⟨by simp [alloc], vals.length, by simp [alloc, shape], ?_⟩
+  simp only [alloc]
+  intro i hi
+  omega
 
 theorem alloc_FreshGood (h : Heap) (vals : List Int) (hl : (vals.length : Int) ≤ PY_SSIZE_T_MAX) :
-    FreshGood h (alloc h vals) := ⟨⟨vals, rfl⟩, (alloc_WF h vals hl).1, alloc_Dense h vals⟩
+    FreshGood h (alloc h vals) := ⟨⟨vals, rfl⟩, (alloc_WF h vals hl).1, alloc_Lay h vals, rfl⟩
+
+/-- a result that IS `alloc h vals` -/
+theorem FreshGood_of_eq {h : Heap} {vals : List Int} {r : Heap × View} (hr : alloc h vals = r) (w : r.2.WF (shape r.1)) :
+    FreshGood h r := by
+  subst hr
+  exact ⟨⟨vals, rfl⟩, w, alloc_Lay h vals, rfl⟩
 
 theorem mapE_error_of_forall_ok {ι α : Type} (f : ι → Except Err α) (g : ι → α) (l : List ι)
     (hf : ∀ i ∈ l, f i = .ok (g i)) {e : Err} (h : mapE f l = .error e) : False := by
@@ -531,10 +567,12 @@ theorem getslice_good {h : Heap} {v : View} (w : v.WF (shape h)) (idx : PyIdx) (
     simp only [List.length_map, List.length_range]
     omega
 
-/-- `a[mask]`: never out of bounds; the reference is well formed, dense like its source, and inherits `_writable` -/
-theorem getsliceMask_good {h : Heap} {f mask : View} (wf : f.WF (shape h)) (wm : mask.WF (shape h)) (df : f.Dense) :
+/-- `a[mask]`: never out of bounds; the reference is well formed, laid out like its source (same allocation, offset and
+    stride) and inherits `_writable` -/
+theorem getsliceMask_good {h : Heap} {f mask : View} (wf : f.WF (shape h)) (wm : mask.WF (shape h))
+    (lf : f.Lay (shape h)) :
     (∀ e, getsliceMask h f mask = .error e → e ≠ .oob) ∧
-    (∀ m, getsliceMask h f mask = .ok m → m.WF (shape h) ∧ m.Dense) := by
+    (∀ m, getsliceMask h f mask = .ok m → m.WF (shape h) ∧ m.Lay (shape h) ∧ m.buf = f.buf ∧ m.stride = f.stride) := by
   by_cases hm : f.isMasked = true
   · unfold getsliceMask
     simp only [hm, if_true]
@@ -546,12 +584,23 @@ theorem getsliceMask_good {h : Heap} {f mask : View} (wf : f.WF (shape h)) (wm :
       | none => rfl
       | some idx => simp [hi] at hm'
     by_cases hlen : f.length = mask.length
-    · obtain ⟨m, hok, _, hwf, _, _, _⟩ := getsliceMask_refines wf wm hun hlen
+    · obtain ⟨m, hok, _, hwf, _, _, hmi⟩ := getsliceMask_refines wf wm hun hlen
       have hi := getsliceMask_inherits hok
+      have hul : m.unmaskedLength = f.length := by
+        unfold getsliceMask at hok
+        simp only [hm', Bool.false_eq_true, if_false, matchDimension, hlen, if_true] at hok
+        split at hok
+        · simp at hok
+        · simp at hok; rw [← hok]; exact hlen.symm
       rw [hok]
       refine ⟨fun e he => (by cases he), fun m' hr => ?_⟩
       simp at hr; subst hr
-      exact ⟨hwf, ⟨by rw [hi.2.2.1, df.off0], by rw [hi.2.2.2, df.stride1]⟩⟩
+      refine ⟨hwf, ⟨by rw [hi.2.2.1, hi.2.2.2]; exact lf.offLt, ?_⟩, hi.1, hi.2.2.2⟩
+      obtain ⟨n, hn, hw⟩ := lf.whole
+      simp only [hun] at hw
+      refine ⟨n, by rw [hi.1]; exact hn, ?_⟩
+      simp only [hmi, hul, hi.2.2.2]
+      exact hw
     · have : getsliceMask h f mask = .error .dimMismatch := by
         simp [getsliceMask, hm', matchDimension, hlen]
       rw [this]
@@ -598,13 +647,11 @@ theorem ifelseVector_good {h : Heap} {v c o : View} (w : v.WF (shape h)) (wc : c
       rw [hok]
       refine ⟨fun e he => (by cases he), fun r hr => ?_⟩
       simp at hr; subst hr
-      refine ⟨hv, hwf, ?_⟩
-      have hfr := ifelseVector_fresh hok
       unfold ifelseVector at hok
       simp only [matchDimension, hl1, hl2, if_true] at hok
       split at hok
       · simp at hok
-      · simp at hok; rw [← hok]; exact alloc_Dense _ _
+      · simp at hok; exact FreshGood_of_eq hok hwf
     · have : ifelseVector h v c o = .error .dimMismatch := by
         have hne : ¬ v.length = o.length := fun hh => hl2 hh.symm
         simp [ifelseVector, matchDimension, hl1, hne]
@@ -623,38 +670,89 @@ theorem ifelseScalar_good {h : Heap} {v c : View} (w : v.WF (shape h)) (wc : c.W
     rw [hok]
     refine ⟨fun e he => (by cases he), fun r hr => ?_⟩
     simp at hr; subst hr
-    refine ⟨hv, hwf, ?_⟩
     unfold ifelseScalar at hok
     simp only [matchDimension, hl1, if_true] at hok
     split at hok
     · simp at hok
-    · simp at hok; rw [← hok]; exact alloc_Dense _ _
+    · simp at hok; exact FreshGood_of_eq hok hwf
   · have : ifelseScalar h v c x = .error .dimMismatch := by
       have hne : ¬ v.length = c.length := fun hh => hl1 hh.symm
       simp [ifelseScalar, matchDimension, hne]
     rw [this]
     exact ⟨fun e he => (by simp at he; subst he; decide), fun r hr => (by cases hr)⟩
 
+/-- a vector array filled component by component: whole elements, offset 0, stride `w` -/
+theorem allocWide_FreshGood (h : Heap) (w : Nat) (cells : List Int) (hw : 0 < w) (hdvd : w ∣ cells.length)
+    (hl : ((cells.length / w : Nat) : Int) ≤ PY_SSIZE_T_MAX) : FreshGood h (allocWide h w cells) := by
+  obtain ⟨n, hn⟩ := hdvd
+  have hlen : cells.length / w = n := by rw [hn]; exact Nat.mul_div_cancel_left n hw
+  have hcell : ∀ i, i < n → i * w + w ≤ cells.length := by
+    intro i hi
+    rw [hn]
+    have : (i + 1) * w ≤ n * w := Nat.mul_le_mul_right w (by omega)
+    rw [Nat.add_mul, Nat.one_mul] at this
+    rw [Nat.mul_comm w n]; exact this
+  refine ⟨⟨cells, rfl⟩, ⟨by simp only [allocWide, hlen]; rw [hlen] at hl; exact hl, by simp [allocWide, hw], cells.length,
+    by simp [allocWide, shape], ?_⟩, ⟨by simp [allocWide, hw], cells.length, by simp [allocWide, shape], ?_⟩, rfl⟩
+  · simp only [allocWide, hlen]
+    intro i hi
+    have := hcell i hi
+    simp only [View.pos, Nat.zero_add]
+    omega
+  · simp only [allocWide, hlen]
+    exact hcell
+
+/-- the component array (current getters: the mask is kept) of component `k < stride` of a vector array (`off = 0`) -/
+theorem compView_good {sh : List Nat} {a : View} (w : a.WF sh) (la : a.Lay sh) {k : Nat} (h0 : a.off = 0) (hk : k < a.stride) :
+    ∃ c, compView true a k = .ok c ∧ c.WF sh ∧ c.Lay sh ∧ c.buf = a.buf ∧ c.stride = a.stride ∧ c.writable = a.writable := by
+  refine ⟨{ a with off := a.off + k }, by simp [compView], ?_, ?_, rfl, rfl, rfl⟩
+  · obtain ⟨n, hn, hwh⟩ := la.whole
+    obtain ⟨n', hn', hm⟩ := w.inBuf
+    have hnn : n' = n := by rw [hn] at hn'; exact (Option.some.inj hn').symm
+    subst hnn
+    refine ⟨w.lenOk, w.stridePos, n', hn, ?_⟩
+    cases hidx : a.indices with
+    | none =>
+      simp only [hidx] at hwh ⊢
+      intro i hi
+      have := hwh i hi
+      simp only [View.pos, h0]
+      omega
+    | some idx =>
+      simp only [hidx] at hwh hm ⊢
+      refine ⟨hm.1, hm.2.1, fun j hj => ?_, hm.2.2.2⟩
+      have := hwh j hj
+      simp only [View.pos, h0]
+      omega
+  · exact ⟨by simp only [h0]; omega, la.whole⟩
 
 /-! ## the invariant of the state machine -/
 
-/-- every Python object is a well-formed dense array or masked reference of one -/
-def StateOK (s : State) : Prop := ∀ v ∈ s.env, v.WF (shape s.heap) ∧ v.Dense
+/-- every Python object is well formed and addresses one component of whole elements; objects on the same allocation
+    agree on the element stride -/
+def StateOK (s : State) : Prop :=
+  (∀ v ∈ s.env, v.WF (shape s.heap) ∧ v.Lay (shape s.heap)) ∧
+  (∀ v ∈ s.env, ∀ v' ∈ s.env, v.buf = v'.buf → v.stride = v'.stride)
 
-/-- the only side condition on a statement: an allocation request fits `Py_ssize_t` (a longer list cannot be built) -/
-def OpOK : Op → Prop
+/-- side conditions on a statement — what Python's typing enforces: an allocation request fits `Py_ssize_t`; a vector array
+    is filled with whole elements; `.x` / `.y` … is taken of a VECTOR array (`off = 0`) and names one of its components -/
+def OpOK (s : State) : Op → Prop
   | .alloc vals => (vals.length : Int) ≤ PY_SSIZE_T_MAX
+  | .allocWide w cells => 0 < w ∧ w ∣ cells.length ∧ ((cells.length / w : Nat) : Int) ≤ PY_SSIZE_T_MAX
+  | .comp v k => ∀ a, s.env[v]? = some a → a.off = 0 ∧ k < a.stride
   | _ => True
 
-theorem StateOK.empty : StateOK State.empty := by intro v hv; simp [State.empty] at hv
+theorem StateOK.empty : StateOK State.empty :=
+  ⟨by intro v hv; simp [State.empty] at hv, by intro v hv; simp [State.empty] at hv⟩
 
 theorem view_ok {s : State} (hs : StateOK s) {v : Nat} {a : View} (h : s.view v = .ok a) :
-    a.WF (shape s.heap) ∧ a.Dense := by
+    a.WF (shape s.heap) ∧ a.Lay (shape s.heap) ∧ a ∈ s.env := by
   unfold State.view at h
   split at h
   · rename_i x hx
     simp at h; subst h
-    exact hs _ (List.mem_of_getElem? hx)
+    have hm := List.mem_of_getElem? hx
+    exact ⟨(hs.1 _ hm).1, (hs.1 _ hm).2, hm⟩
   · simp at h
 
 theorem view_error {s : State} {v : Nat} {e : Err} (h : s.view v = .error e) : e ≠ .oob := by
@@ -665,6 +763,14 @@ theorem view_error {s : State} {v : Nat} {e : Err} (h : s.view v = .error e) : e
 
 theorem view_ne_oob (s : State) (v : Nat) : s.view v ≠ .error .oob := fun h => view_error h rfl
 
+theorem View.Lay.of_shape_eq {sh sh' : List Nat} {v : View} (l : v.Lay sh) (h : sh' = sh) : v.Lay sh' := h ▸ l
+
+theorem View.Lay.append {sh : List Nat} {v : View} (l : v.Lay sh) (k : Nat) : v.Lay (sh ++ [k]) := by
+  obtain ⟨n, hn, hw⟩ := l.whole
+  refine ⟨l.offLt, n, ?_, hw⟩
+  have : v.buf < sh.length := (List.getElem?_eq_some_iff.1 hn).1
+  simp [List.getElem?_append_left this, hn]
+
 theorem withHeap_inv {s : State} (hs : StateOK s) {r : Except Err Heap}
     (hok : ∀ h', r = .ok h' → shape h' = shape s.heap) (herr : ∀ e, r = .error e → e ≠ .oob) :
     StateOK (s.withHeap r).1 ∧ (s.withHeap r).2 ≠ .error .oob := by
@@ -674,20 +780,29 @@ theorem withHeap_inv {s : State} (hs : StateOK s) {r : Except Err Heap}
     simp only [State.withHeap]
     intro hh; exact herr e rfl (by simpa using hh)
   | ok h' =>
-    refine ⟨?_, by simp [State.withHeap]⟩
+    refine ⟨⟨?_, hs.2⟩, by simp [State.withHeap]⟩
     intro v hv
     simp only [State.withHeap] at hv ⊢
     rw [hok h' rfl]
-    exact hs v hv
+    exact hs.1 v hv
 
-theorem push_inv {s : State} {h' : Heap} {f : View} (hold : ∀ v ∈ s.env, v.WF (shape h') ∧ v.Dense)
-    (hf : f.WF (shape h') ∧ f.Dense) : StateOK (s.push h' f).1 ∧ (s.push h' f).2 ≠ .error .oob := by
-  refine ⟨?_, by simp [State.push]⟩
-  intro v hv
-  simp only [State.push, List.mem_append, List.mem_singleton] at hv ⊢
-  rcases hv with h | h
-  · exact hold v h
-  · subst h; exact hf
+/-- adding an object on an EXISTING allocation `b` whose objects already have its stride -/
+theorem push_same_inv {s : State} (hs : StateOK s) {f a : View} (ha : a ∈ s.env)
+    (hf : f.WF (shape s.heap) ∧ f.Lay (shape s.heap)) (hb : f.buf = a.buf) (hst : f.stride = a.stride) :
+    StateOK (s.push s.heap f).1 ∧ (s.push s.heap f).2 ≠ .error .oob := by
+  refine ⟨⟨?_, ?_⟩, by simp [State.push]⟩
+  · intro v hv
+    simp only [State.push, List.mem_append, List.mem_singleton] at hv ⊢
+    rcases hv with h | h
+    · exact hs.1 v h
+    · subst h; exact hf
+  · intro v hv v' hv' hbb
+    simp only [State.push, List.mem_append, List.mem_singleton] at hv hv'
+    rcases hv with h | h <;> rcases hv' with h' | h'
+    · exact hs.2 v h v' h' hbb
+    · subst h'; rw [hst]; exact hs.2 v h a ha (by rw [hbb, hb])
+    · subst h; rw [hst]; exact hs.2 a ha v' h' (by rw [← hb, hbb])
+    · subst h; subst h'; rfl
 
 theorem withNew_inv {s : State} (hs : StateOK s) {r : Except Err (Heap × View)}
     (hok : ∀ x, r = .ok x → FreshGood s.heap x) (herr : ∀ e, r = .error e → e ≠ .oob) :
@@ -699,27 +814,60 @@ theorem withNew_inv {s : State} (hs : StateOK s) {r : Except Err (Heap × View)}
     intro hh; exact herr e rfl (by simpa using hh)
   | ok x =>
     obtain ⟨h', f⟩ := x
-    obtain ⟨⟨vals, hv⟩, hwf, hd⟩ := hok _ rfl
-    simp only at hv hwf hd
+    obtain ⟨⟨vals, hv⟩, hwf, hlay, hbuf⟩ := hok _ rfl
+    simp only at hv hwf hlay hbuf
     simp only [State.withNew]
-    apply push_inv
+    subst hv
+    have hold : ∀ v ∈ s.env, v.buf < s.heap.length := by
+      intro v hvm
+      obtain ⟨n, hn, _⟩ := (hs.1 v hvm).1.inBuf
+      have := (List.getElem?_eq_some_iff.1 hn).1
+      simpa [shape] using this
+    refine ⟨⟨?_, ?_⟩, by simp [State.push]⟩
     · intro v hvm
-      subst hv
-      rw [shape_append]
-      exact ⟨(hs v hvm).1.append _, (hs v hvm).2⟩
-    · exact ⟨hwf, hd⟩
+      simp only [State.push, List.mem_append, List.mem_singleton] at hvm ⊢
+      rcases hvm with h | h
+      · rw [shape_append]
+        exact ⟨(hs.1 v h).1.append _, (hs.1 v h).2.append _⟩
+      · subst h; exact ⟨hwf, hlay⟩
+    · intro v hvm v' hvm' hbb
+      simp only [State.push, List.mem_append, List.mem_singleton] at hvm hvm'
+      rcases hvm with h | h <;> rcases hvm' with h' | h'
+      · exact hs.2 v h v' h' hbb
+      · subst h'; have := hold v h; omega
+      · subst h; have := hold v' h'; omega
+      · subst h; subst h'; rfl
 
 theorem same_inv {s : State} (hs : StateOK s) {r : Res} (hr : r ≠ .error .oob) :
     StateOK ((s, r) : State × Res).1 ∧ ((s, r) : State × Res).2 ≠ .error .oob := ⟨hs, hr⟩
 
 /-- **One statement, any statement (current code): the invariant is preserved and no access leaves a buffer.** -/
-theorem step_inv (s : State) (hs : StateOK s) (op : Op) (hop : OpOK op) :
+theorem step_inv (s : State) (hs : StateOK s) (op : Op) (hop : OpOK s op) :
     StateOK (step Cfg.current s op).1 ∧ (step Cfg.current s op).2 ≠ .error .oob := by
   cases op with
   | alloc vals =>
     simp only [step]
     exact withNew_inv hs (r := .ok (alloc s.heap vals))
       (fun x hx => by simp at hx; subst hx; exact alloc_FreshGood _ _ hop) (fun e he => by cases he)
+  | allocWide w cells =>
+    simp only [step]
+    exact withNew_inv hs (r := .ok (allocWide s.heap w cells))
+      (fun x hx => by simp at hx; subst hx; exact allocWide_FreshGood _ _ _ hop.1 hop.2.1 hop.2.2) (fun e he => by cases he)
+  | comp v k =>
+    simp only [step]
+    split
+    · rename_i a ha
+      obtain ⟨wa, la, hmem⟩ := view_ok hs ha
+      have hidx : s.env[v]? = some a := by
+        unfold State.view at ha
+        split at ha
+        · rename_i x hx; simp at ha; subst ha; exact hx
+        · simp at ha
+      obtain ⟨h0, hk⟩ := hop a hidx
+      obtain ⟨c, hc, wc, lc, hb, hst, _⟩ := compView_good wa la h0 hk
+      simp only [Cfg.current, hc]
+      exact push_same_inv hs hmem ⟨wc, lc⟩ hb hst
+    · exact same_inv hs (fun hh => by simp at hh; subst hh; exact view_ne_oob s _ (by assumption))
   | len v =>
     simp only [step]
     split
@@ -750,10 +898,12 @@ theorem step_inv (s : State) (hs : StateOK s) (op : Op) (hop : OpOK op) :
     simp only [step]
     split
     · rename_i a mk ha hm
-      have g := getsliceMask_good (view_ok hs ha).1 (view_ok hs hm).1 (view_ok hs ha).2
+      obtain ⟨wa, la, hmem⟩ := view_ok hs ha
+      have g := getsliceMask_good wa (view_ok hs hm).1 la
       split
       · rename_i f hf
-        exact push_inv hs (g.2 f hf)
+        obtain ⟨g1, g2, g3, g4⟩ := g.2 f hf
+        exact push_same_inv hs hmem ⟨g1, g2⟩ g3 g4
       · rename_i e he
         exact same_inv hs (fun hh => g.1 e he (by simpa using hh))
     · exact same_inv hs (fun hh => by simp at hh; subst hh; exact view_ne_oob s _ (by assumption))
@@ -762,7 +912,8 @@ theorem step_inv (s : State) (hs : StateOK s) (op : Op) (hop : OpOK op) :
     simp only [step]
     split
     · rename_i a ha
-      exact push_inv hs (view_ok hs ha)
+      obtain ⟨wa, la, hmem⟩ := view_ok hs ha
+      exact push_same_inv hs hmem ⟨wa, la⟩ rfl rfl
     · exact same_inv hs (fun hh => by simp at hh; subst hh; exact view_ne_oob s _ (by assumption))
   | convert v =>
     simp only [step]
@@ -799,9 +950,11 @@ theorem step_inv (s : State) (hs : StateOK s) (op : Op) (hop : OpOK op) :
     simp only [step]
     split
     · rename_i a mk da ha hm hd
+      obtain ⟨wa, la, hma⟩ := view_ok hs ha
+      obtain ⟨wm, lm, hmm⟩ := view_ok hs hm
       exact withHeap_inv hs (fun h' hr => (setitemVectorMask_mutates hr).shape)
-        (fun e he => setitemVectorMask_no_oob (view_ok hs ha).1 (view_ok hs hm).1 (view_ok hs hd).1
-          (view_ok hs ha).2 (view_ok hs hm).2 he)
+        (fun e he => setitemVectorMask_no_oob wa wm (view_ok hs hd).1 la.offLt lm.offLt
+          (fun hb => hs.2 mk hmm a hma hb) he)
     · exact same_inv hs (fun hh => by simp at hh; subst hh; exact view_ne_oob s _ (by assumption))
     · exact same_inv hs (fun hh => by simp at hh; subst hh; exact view_ne_oob s _ (by assumption))
     · exact same_inv hs (fun hh => by simp at hh; subst hh; exact view_ne_oob s _ (by assumption))
@@ -826,14 +979,22 @@ theorem step_inv (s : State) (hs : StateOK s) (op : Op) (hop : OpOK op) :
     simp only [step]
     split
     · rename_i a ha
-      refine ⟨?_, by simp⟩
-      intro w hw
-      simp only at hw ⊢
-      rcases List.mem_or_eq_of_mem_set hw with h | h
-      · exact hs w h
-      · subst h
-        obtain ⟨wa, da⟩ := view_ok hs ha
-        exact ⟨⟨wa.lenOk, wa.stridePos, wa.inBuf⟩, ⟨da.off0, da.stride1⟩⟩
+      obtain ⟨wa, la, hmem⟩ := view_ok hs ha
+      have hnew : ({ a with writable := false } : View).WF (shape s.heap) ∧ ({ a with writable := false } : View).Lay (shape s.heap) :=
+        ⟨⟨wa.lenOk, wa.stridePos, wa.inBuf⟩, ⟨la.offLt, la.whole⟩⟩
+      refine ⟨⟨?_, ?_⟩, by simp⟩
+      · intro w hw
+        simp only at hw ⊢
+        rcases List.mem_or_eq_of_mem_set hw with h | h
+        · exact hs.1 w h
+        · subst h; exact hnew
+      · intro w hw w' hw' hbb
+        simp only at hw hw'
+        rcases List.mem_or_eq_of_mem_set hw with h | h <;> rcases List.mem_or_eq_of_mem_set hw' with h' | h'
+        · exact hs.2 w h w' h' hbb
+        · subst h'; exact hs.2 w h a hmem hbb
+        · subst h; exact hs.2 a hmem w' h' hbb
+        · subst h; subst h'; rfl
     · exact same_inv hs (fun hh => by simp at hh; subst hh; exact view_ne_oob s _ (by assumption))
   | iaddScalar v x =>
     simp only [step]
@@ -851,16 +1012,21 @@ theorem step_inv (s : State) (hs : StateOK s) (op : Op) (hop : OpOK op) :
     · exact same_inv hs (fun hh => by simp at hh; subst hh; exact view_ne_oob s _ (by assumption))
     · exact same_inv hs (fun hh => by simp at hh; subst hh; exact view_ne_oob s _ (by assumption))
 
+/-- the side conditions along a program, each evaluated in the state its statement runs in -/
+def OpsOK : State → List Op → Prop
+  | _, [] => True
+  | s, op :: ops => OpOK s op ∧ OpsOK (step Cfg.current s op).1 ops
+
 /-- **No program ever touches a cell outside a buffer**, and the invariant holds in every reachable state. -/
-theorem run_inv : ∀ (ops : List Op) (s : State), StateOK s → (∀ op ∈ ops, OpOK op) →
+theorem run_inv : ∀ (ops : List Op) (s : State), StateOK s → OpsOK s ops →
     StateOK (exec Cfg.current s ops) ∧ ∀ r ∈ (run Cfg.current s ops).2, r ≠ .error .oob := by
   intro ops
   induction ops with
   | nil => intro s hs _; exact ⟨hs, by simp [run]⟩
   | cons op ops ih =>
     intro s hs hops
-    obtain ⟨h1, h2⟩ := step_inv s hs op (hops op (by simp))
-    obtain ⟨h3, h4⟩ := ih (step Cfg.current s op).1 h1 (fun o ho => hops o (by simp [ho]))
+    obtain ⟨h1, h2⟩ := step_inv s hs op hops.1
+    obtain ⟨h3, h4⟩ := ih (step Cfg.current s op).1 h1 hops.2
     refine ⟨by simpa only [exec] using h3, ?_⟩
     intro r hr
     simp only [run, List.mem_cons] at hr
